@@ -4,7 +4,8 @@
 From MV Require Import Base.Prelude Model.Topic Spec.SpecTopic Model.TopicOracle Model.EnginesV3 Model.EnginesV5 Model.RespQueue Model.RespOracle.
 From MV Require Model.Sink.   (* qualified: Sink.v has many short names *)
 From MV Require Model.Limiter Model.LimiterOracle.   (* qualified as well *)
-From MV Require Model.Payload.   (* qualified: short names (step, run_from, op ..) *)
+From MV Require Model.Payload.
+From MV Require Model.Sized.   (* qualified: short names (step, run_from, op ..) *)
 From MV Require Model.EnginesHs.   (* qualified: imports both codec models *)
 
 From MV Require Model.IoEnv Model.TimerRt.   (* qualified: own queue/handler names *)
@@ -25,6 +26,8 @@ Definition run (e : N) (c : list (list N)) : list (list N) :=
   | 32 => Sink.run_sink5 c
   | 35 => Limiter.run_limiter c
   | 41 => Payload.run_payload c
+  | 13 => Sized.run_sized3 c
+  | 23 => Sized.run_sized5 c
   | 38 => EnginesHs.run_hs c
   | _ => if (10 <=? e) && (e <? 20) then run_v3 e c
          else if (20 <=? e) && (e <? 30) then run_v5 e c
